@@ -178,6 +178,12 @@ def match_known(pid, item, known):
 def clause_in_property(world, v, pid):
     """a run-time violation counts for a property if the violated function is tagged with it and the clause is not
     reserved for other properties"""
+    import re
+    m = re.match(r"^(C\d\d)\b", str(v.get("clause", "")))
+    if m:
+        # a violation found by a driver's own oracle is labelled with the property it decides (the drivers filter by
+        # the property they run for): it counts whatever contract the named function carries
+        return True
     c = world.contracts.get(v.get("function", ""))
     if c is None:
         return True
